@@ -8,19 +8,16 @@
 (*     readings of != disagree), nnf/desugared shape facts]                *)
 (* GenTrees selects the enumerated set:                                    *)
 (*    "quick"    all trees of height <= 1 over FullAtoms and all trees of  *)
-(*               height <= 2 over five core atoms                          *)
+(*               height <= 2 over six core atoms                           *)
 (*    "thorough" the same with seven core atoms                            *)
 (***************************************************************************)
 EXTENDS CondDomain, Json
 CONSTANT GenSet
 VARIABLES c, done
 
-Core5 == Core6 \ { Num("dport", "<", 256) }
-
-GenTrees == CASE GenSet = "quick"    -> Grow(FullAtoms) \cup H2(Core5)
+GenTrees == CASE GenSet = "quick"    -> Grow(FullAtoms) \cup H2(Core6)
               [] GenSet = "thorough" -> Grow(FullAtoms) \cup H2(Core7)
               [] GenSet = "h1"       -> Grow(FullAtoms)
-              [] GenSet = "core6"    -> H2(Core6)
               [] GenSet = "tiny"     -> Grow(Core4)
 
 CaseH(x, hs) == [tree |-> x,
